@@ -452,6 +452,7 @@ class C04:
                     if op == "full" and a.get("ctrl_c_at_bytecode"):
                         from sim import asyncexc
                         _instrument_stateful()
+                        gc.disable()     # (a cyclic collection inside the window would finalise unrelated generators: not a function of the run)
                         asyncexc.arm(a["ctrl_c_at_bytecode"])
                         try:
                             got = [canon(i, a.get("look", "all")) for i in e.read()]
@@ -459,6 +460,7 @@ class C04:
                             got = None
                         finally:
                             fired, n_ins = asyncexc.disarm()
+                            gc.enable()
                         if fired is not None:
                             out["counters"]["fault.ctrl_c_between_bytecodes"] = out["counters"].get("fault.ctrl_c_between_bytecodes", 0) + 1
                             out["counters"][f"reach.ctrl_c_in.{fired[0]}"] = out["counters"].get(f"reach.ctrl_c_in.{fired[0]}", 0) + 1
